@@ -1363,7 +1363,7 @@ class BinaryOperator(SymbolicExpression, ABC):
 
     def _reset_only_my_cache_(self) -> None:
         super()._reset_only_my_cache_()
-        if any(getattr(v.value, '_domain_is_the_registry_', False) for v in self._unique_variables_):
+        if any(isinstance(v.value, Variable) and v.value._domain_is_the_registry_ for v in self._unique_variables_):
             # a variable that ranges over the live registry of instances has a different domain in the next evaluation,
             # what was cached for it is valid for this evaluation only.
             for cache in (getattr(self, name, None) for name in ('_cache_', 'right_cache', 'left_cache')):
